@@ -36,6 +36,10 @@ type Recorder struct {
 	nodes map[string]*nodeRef // storage dir -> owner
 
 	stepEvery bool // emit every step (engine B) instead of only changes
+
+	// onNodeEvent, if set, sees every node record before it is written
+	// (directed scenarios use it to arm a crash at the point that follows)
+	onNodeEvent func(dir string, r *ev.Rec)
 }
 
 func newRecorder(path string) (*Recorder, error) {
@@ -94,6 +98,9 @@ func (rc *Recorder) emitNode(dir string, r *ev.Rec) int64 {
 		return 0
 	}
 	r.Cid, r.Nid, r.Inc = n.cid, n.nid, n.inc
+	if rc.onNodeEvent != nil {
+		rc.onNodeEvent(dir, r)
+	}
 	return rc.emit(r)
 }
 
@@ -187,6 +194,52 @@ func (rc *Recorder) install(pc *Points) {
 		rc.emitNode(filepath.Dir(logDir), &ev.Rec{K: "durable", Seg: prev, Cnt: int64(n)})
 	}
 	mmap.VerifQuarantine = true
+}
+
+// snapMeta reports the newest snapshot file of the node owning dir: label
+// (index, term, membership) and content (number and rolling hash of ids).
+func (rc *Recorder) snapMeta(dir string) {
+	sdir := filepath.Join(dir, "snapshots")
+	metas, _ := filepath.Glob(filepath.Join(sdir, "*.meta"))
+	var best uint64
+	var bestPath string
+	for _, m := range metas {
+		v, err := strconv.ParseUint(strings.TrimSuffix(filepath.Base(m), ".meta"), 10, 64)
+		if err == nil && v >= best {
+			best, bestPath = v, m
+		}
+	}
+	if bestPath == "" {
+		return
+	}
+	f, err := os.Open(bestPath)
+	if err != nil {
+		return
+	}
+	idx, term, cfg, size, err := raft.VerifSnapMeta(f)
+	f.Close()
+	rec := &ev.Rec{K: "snapmeta", Idx: idx, Term: term, Cfg: cvCfg(&cfg)}
+	if err != nil {
+		rec.Err = "meta: " + err.Error()
+		rc.emitNode(dir, rec)
+		return
+	}
+	sf, err := os.Open(filepath.Join(sdir, fmt.Sprintf("%d.snap", idx)))
+	if err != nil {
+		rec.Err = "snap: " + err.Error()
+		rc.emitNode(dir, rec)
+		return
+	}
+	defer sf.Close()
+	if st, err := sf.Stat(); err == nil && st.Size() != size {
+		rec.Err = fmt.Sprintf("snap file has %d bytes, label says %d", st.Size(), size)
+	}
+	list, roll, err := readIDList(sf)
+	if err != nil {
+		rec.Err = "snap read: " + err.Error()
+	}
+	rec.Cnt, rec.H = int64(len(list)), roll
+	rc.emitNode(dir, rec)
 }
 
 func fatalf(format string, a ...interface{}) {
